@@ -163,6 +163,10 @@ pub fn run(seed: u64, quick: bool) -> Report {
                                     "C18:server-not-answering-after-faults",
                                     json!({"error": e, "second_probe": e2, "after_group": gname, "mode": mode_tag, "server": "child process"}),
                                 );
+                                // nothing more to learn from a server that has stopped answering
+                                let _ = srv.child.kill();
+                                let _ = srv.child.wait();
+                                dead = true;
                             }
                         }
                     }
@@ -181,6 +185,9 @@ pub fn run(seed: u64, quick: bool) -> Report {
                     dead = true;
                     break;
                 }
+            }
+            if dead {
+                break;
             }
         }
         if dead {
